@@ -166,13 +166,13 @@ Proof.
     injection Hd as Hd. subst s'. cbn [m_chunk_end m_removed].
     split; [|split; reflexivity].
     constructor; cbn [m_phase m_deadline m_chunk_size m_min_chunk m_chunk_end];
-      try assumption; try reflexivity. lia.
+      try assumption; try reflexivity; try lia.
   - destruct (m_removed s && is_always (c_repeat cfg) && (m_chunk_size s <? tc_len best)) eqn:E2;
       injection Hd as Hd; subst s'; cbn [m_chunk_end m_removed];
       (split; [|split; reflexivity]);
       constructor; cbn [m_phase m_deadline m_chunk_size m_min_chunk m_chunk_end];
       try assumption; try reflexivity; try lia.
-    apply mm_halve_ge1. exact Hcs.
+    exact (mm_halve_ge1 (halve_fuel (m_chunk_size s)) (m_chunk_size s) (tc_len best) Hcs).
 Qed.
 
 Lemma decide_state_none : forall cfg s best, MI s best ->
@@ -457,15 +457,15 @@ Proof. intros f file0 H. unfold det. rewrite H. reflexivity. Qed.
 (* ------------------------------------------------------------------ *)
 
 Lemma minimize_one_minimal_loop :
-  forall cfg clk f tc0 file0 fuel rc wf,
+  forall cfg clk f tc0 file0 fuel rc wfin,
     wf tc0 -> Forall (fun p => p <> []) (tc_parts tc0) ->
     c_min cfg = 1 -> is_power_of_two (c_max cfg) = true -> c_repeat cfg <> Never ->
     c_limit cfg = None ->
     f (content tc0) = true ->
     loop (minimize cfg clk no_post) (det f) fuel (mstart cfg clk tc0) (it0 tc0) (wY tc0 file0)
-      = Finished rc wf ->
+      = Finished rc wfin ->
     exists tf,
-      sub_reducible tc0 tf /\ w_file (finally wf) = content tf /\ f (content tf) = true /\
+      sub_reducible tc0 tf /\ w_file (finally wfin) = content tf /\ f (content tf) = true /\
       mm_one_minimal f tf.
 Proof.
   intros cfg clk f tc0 file0 fuel rc wf0 Hwf Hne Hmin Hmax Hrep Hlim Hf Hr.
@@ -488,3 +488,209 @@ Proof.
   split; [apply (ji_f _ _ _ HJ)|].
   apply (done_one_minimal f cfg clk st' (it_best it') Hrep HI HL (ji_wf _ _ _ HJ)). exact Hd.
 Qed.
+
+(* the run does not run out of fuel and the strategy does not raise (provided by
+   MinimizeBound.minimize_bounded_no_post) *)
+Definition run_terminates (r : result) : Prop :=
+  (forall w, r <> NoFuel w) /\ (forall e w, r <> Aborted (Some e) w).
+
+Lemma minimize_one_minimal_if_finished :
+  forall cfg clk f tc0 file0 fuel,
+    wf tc0 -> Forall (fun p => p <> []) (tc_parts tc0) -> content tc0 = file0 ->
+    c_min cfg = 1 -> is_power_of_two (c_max cfg) = true -> c_repeat cfg <> Never ->
+    c_limit cfg = None ->
+    f file0 = true -> tc_len tc0 <> 0 ->
+    run_terminates (run (minimize cfg clk no_post) (det f) fuel tc0 file0) ->
+    exists rc w tf,
+      run (minimize cfg clk no_post) (det f) fuel tc0 file0 = Finished rc w /\
+      sub_reducible tc0 tf /\ w_file w = content tf /\ f (content tf) = true /\
+      mm_one_minimal f tf.
+Proof.
+  intros cfg clk f tc0 file0 fuel Hwf Hne Hc Hmin Hmax Hrep Hlim Hf Hlen [HnoF HnoA].
+  pose proof (det_first_yes f file0 Hf) as Hv.
+  destruct (run_cases mstate (minimize cfg clk no_post) (det f) fuel tc0 file0)
+    as [[Hl _]|[(_ & Hv' & _)|[(_ & Hv' & _)|(_ & _ & He)]]].
+  - exfalso. exact (Hlen Hl).
+  - rewrite Hv in Hv'. discriminate Hv'.
+  - rewrite Hv in Hv'. discriminate Hv'.
+  - cbn [s_start minimize] in He.
+    destruct (loop (minimize cfg clk no_post) (det f) fuel (mstart cfg clk tc0) (it0 tc0)
+                   (wY tc0 file0)) as [rc wfin|[e|] wfin|wfin] eqn:EL; cbn [map_world] in He.
+    + subst file0.
+      destruct (minimize_one_minimal_loop cfg clk f tc0 (content tc0) fuel rc wfin
+                  Hwf Hne Hmin Hmax Hrep Hlim Hf EL) as (tf & Hsub & Hfile & Hft & Hom).
+      exists rc, (finally wfin), tf. split; [exact He|].
+      split; [exact Hsub|]. split; [exact Hfile|]. split; [exact Hft | exact Hom].
+    + exfalso. exact (HnoA e (finally wfin) He).
+    + exfalso. exact (det_loop_not_raise _ _ _ _ _ _ _ _ EL).
+    + exfalso. exact (HnoF wfin He).
+Qed.
+
+(* ------------------------------------------------------------------ *)
+(* C03, second theorem: a chunk-size-1 re-run on a 1-minimal file      *)
+(* ------------------------------------------------------------------ *)
+
+Section Noop.
+Variable f : bytes -> bool.
+Variable tf : tcase.
+Hypothesis Hwf_tf : wf tf.
+Hypothesis Hom_tf : mm_one_minimal f tf.
+
+Definition NI (st : mstate) (it : iter) : Prop :=
+  it_best it = tf /\ it_any it = false /\ MI st tf /\ m_chunk_size st = 1.
+
+Definition on_NI (s : lstate mstate) : Prop :=
+  match s with LS st it _ => NI st it end.
+
+Lemma NI_step : forall cfg clk a b, c_repeat cfg = Never ->
+  lstep (minimize cfg clk no_post) (det f) a b -> on_NI a -> on_NI b.
+Proof.
+  intros cfg clk a b Hrep Hstep. destruct Hstep as
+    [st it w b0 st' Hn | st it w t k Hn Hm | st it w t k w' Hn Hm Hi | st it w t k w' Hn Hm Hi];
+    cbn [on_NI]; intros (Hb & Hany & HI & Hcs);
+    change (s_next (minimize cfg clk no_post) st (it_best it))
+      with (mnext cfg clk no_post st (it_best it)) in Hn;
+    rewrite Hb in Hn;
+    (destruct (mnext_shape cfg clk st tf HI Hwf_tf)
+      as [(Hd & _)|(s' & t0 & HI' & H1 & Hs' & Hrm & Hp)];
+     [rewrite Hd in Hn; discriminate Hn|]);
+    rewrite Hp in Hn; try discriminate Hn;
+    injection Hn as Ht Hk; subst t0 k;
+    (destruct Hs' as [Hs'|[Hs' _]];
+     [subst s'
+     |rewrite (decide_state_never cfg st tf Hrep) in Hs';
+      [discriminate Hs' | rewrite Hcs, (mi_min _ _ HI); lia]]);
+    (assert (Hf : f (content t) = false);
+     [apply (Hom_tf (m_chunk_end st - 1) t);
+      [pose proof (mi_ce _ _ HI); lia
+      |rewrite <- Hrm; unfold block_of; cbn [fst]; rewrite Hcs; f_equal; lia]|]).
+  - split; [exact Hb|]. split; [exact Hany|]. split.
+    + apply k_of_fail_MI; [exact HI | discriminate].
+    + exact Hcs.
+  - pose proof (det_yes f _ _ _ Hi) as Hy. rewrite Hf in Hy. discriminate Hy.
+  - cbn [it_best it_any]. split; [exact Hb|]. split; [exact Hany|]. split.
+    + apply k_of_fail_MI; [exact HI | discriminate].
+    + exact Hcs.
+Qed.
+
+Lemma NI_steps : forall cfg clk a b, c_repeat cfg = Never ->
+  lsteps (minimize cfg clk no_post) (det f) a b -> on_NI a -> on_NI b.
+Proof.
+  intros cfg clk a b Hrep Hs. induction Hs as [s|a b c Hab Hbc IH]; intros Ha.
+  - exact Ha.
+  - apply IH. eapply NI_step; eassumption.
+Qed.
+
+End Noop.
+
+Lemma mm_numbered_ge : forall l i e, numbered_from i l -> In e l -> i <= fst (test_nums e).
+Proof.
+  intros l. induction l as [|x l IH]; intros i e Hn Hin; [destruct Hin|].
+  cbn [numbered_from] in Hn. destruct Hn as [Hx Hr]. destruct Hin as [Hin|Hin].
+  - subst x. rewrite Hx. cbn [fst]. lia.
+  - pose proof (IH (i + 1) e Hr Hin). lia.
+Qed.
+
+Definition cfg_one : mcfg :=
+  {| c_min := 1; c_max := 1; c_repeat := Never; c_first := false; c_limit := None |}.
+
+Lemma chunk_size_one_rerun_noop_if_finished :
+  forall clk f tf fuel,
+    wf tf -> f (content tf) = true -> mm_one_minimal f tf -> tc_len tf <> 0 ->
+    run_terminates (run (minimize cfg_one clk no_post) (det f) fuel tf (content tf)) ->
+    exists w, run (minimize cfg_one clk no_post) (det f) fuel tf (content tf) = Finished 1 w /\
+              w_file w = content tf /\
+              (forall k p g, In (ETest k p g Yes) (chron w) -> k = 1).
+Proof.
+  intros clk f tf fuel Hwf Hf Hom Hlen [HnoF HnoA].
+  pose proof (det_first_yes f (content tf) Hf) as Hv.
+  destruct (run_cases mstate (minimize cfg_one clk no_post) (det f) fuel tf (content tf))
+    as [[Hl _]|[(_ & Hv' & _)|[(_ & Hv' & _)|(_ & _ & He)]]].
+  - exfalso. exact (Hlen Hl).
+  - rewrite Hv in Hv'. discriminate Hv'.
+  - rewrite Hv in Hv'. discriminate Hv'.
+  - pose proof He as He0. cbn [s_start minimize] in He.
+    destruct (loop (minimize cfg_one clk no_post) (det f) fuel (mstart cfg_one clk tf) (it0 tf)
+                   (wY tf (content tf))) as [rc wfin|[e|] wfin|wfin] eqn:EL;
+      cbn [map_world] in He.
+    + destruct (loop_finished_file mstate (minimize cfg_one clk no_post) (det f) fuel tf
+                  (content tf) rc wfin EL) as (st' & it' & w' & Hs & _ & Hrc & Hfile).
+      destruct (mstart_MI cfg_one clk tf eq_refl eq_refl eq_refl) as [HI0 _].
+      assert (H0 : on_NI tf (LS (mstart cfg_one clk tf) (it0 tf) (wY tf (content tf)))).
+      { cbn [on_NI]. split; [reflexivity|]. split; [reflexivity|]. split; [exact HI0|].
+        unfold mstart. cbn [m_chunk_size cfg_one c_max].
+        pose proof (mm_lpot_ge1 (tc_len tf)). lia. }
+      pose proof (NI_steps f tf Hwf Hom cfg_one clk _ _ eq_refl Hs H0) as HN.
+      cbn [on_NI] in HN. destruct HN as (Hb & Hany & _ & _).
+      rewrite Hany in Hrc. subst rc. rewrite Hb in Hfile.
+      exists (finally wfin). split; [exact He|]. split; [exact Hfile|].
+      intros k p g Hin.
+      destruct (run_status mstate (minimize cfg_one clk no_post) (det f) fuel tf (content tf)
+                  1 (finally wfin) Hlen Hv He) as [_ Hiff].
+      pose proof (run_temp_log mstate (minimize cfg_one clk no_post) (det f) fuel tf
+                    (content tf) eq_refl) as Hlog.
+      cbv zeta in Hlog. rewrite He in Hlog. cbn [result_world] in Hlog.
+      destruct Hlog as (_ & Hnum & _).
+      assert (Hin' : In (ETest k p g Yes) (tests_of (chron (finally wfin)))).
+      { unfold tests_of. apply filter_In. split; [exact Hin | reflexivity]. }
+      pose proof (mm_numbered_ge _ _ _ Hnum Hin') as Hge. cbn [test_nums fst] in Hge.
+      destruct (Z_lt_le_dec 1 k) as [Hlt|Hle]; [|lia].
+      exfalso. assert (H10 : 1 = 0) by (apply Hiff; exists k, p, g; split; assumption).
+      discriminate H10.
+    + exfalso. exact (HnoA e (finally wfin) He).
+    + exfalso. exact (det_loop_not_raise _ _ _ _ _ _ _ _ EL).
+    + exfalso. exact (HnoF wfin He).
+Qed.
+
+(* ------------------------------------------------------------------ *)
+(* termination (Proofs/MinimizeBound.v) and the statements of C03      *)
+(* ------------------------------------------------------------------ *)
+
+From Lithium Require MinimizeBound.
+
+Lemma run_terminates_minimize : forall cfg clk verdict tc0 file0 fuel,
+  wf tc0 -> valid_cfg cfg -> (Z.to_nat (2 * c09_bound (tc_len tc0)) <= fuel)%nat ->
+  run_terminates (run (minimize cfg clk no_post) verdict fuel tc0 file0).
+Proof.
+  intros cfg clk verdict tc0 file0 fuel Hwf Hv Hfuel.
+  pose proof (MinimizeBound.minimize_bounded_no_post cfg clk verdict tc0 file0 fuel Hwf Hv Hfuel)
+    as H. cbv zeta in H. destruct H as (H1 & H2 & _). split; assumption.
+Qed.
+
+Lemma minimize_one_minimal :
+  forall cfg clk f tc0 file0 fuel,
+    wf tc0 -> Forall (fun p => p <> []) (tc_parts tc0) -> content tc0 = file0 ->
+    c_min cfg = 1 -> is_power_of_two (c_max cfg) = true -> c_repeat cfg <> Never ->
+    c_limit cfg = None ->
+    f file0 = true -> tc_len tc0 <> 0 ->
+    (Z.to_nat (2 * c09_bound (tc_len tc0)) <= fuel)%nat ->
+    exists rc w tf,
+      run (minimize cfg clk no_post) (det f) fuel tc0 file0 = Finished rc w /\
+      sub_reducible tc0 tf /\ w_file w = content tf /\ f (content tf) = true /\
+      mm_one_minimal f tf.
+Proof.
+  intros cfg clk f tc0 file0 fuel Hwf Hne Hc Hmin Hmax Hrep Hlim Hf Hlen Hfuel.
+  apply minimize_one_minimal_if_finished; try assumption.
+  apply run_terminates_minimize; [exact Hwf| |exact Hfuel].
+  split; [rewrite Hmin; reflexivity | exact Hmax].
+Qed.
+
+Lemma chunk_size_one_rerun_noop :
+  forall clk f tf fuel,
+    wf tf -> Forall (fun p => p <> []) (tc_parts tf) -> f (content tf) = true ->
+    mm_one_minimal f tf -> tc_len tf <> 0 ->
+    (Z.to_nat (2 * c09_bound (tc_len tf)) <= fuel)%nat ->
+    let cfg := {| c_min := 1; c_max := 1; c_repeat := Never; c_first := false; c_limit := None |} in
+    exists w, run (minimize cfg clk no_post) (det f) fuel tf (content tf) = Finished 1 w /\
+              w_file w = content tf /\
+              (forall k p g, In (ETest k p g Yes) (chron w) -> k = 1).
+Proof.
+  intros clk f tf fuel Hwf _ Hf Hom Hlen Hfuel cfg.
+  change cfg with cfg_one.
+  apply chunk_size_one_rerun_noop_if_finished; try assumption.
+  apply run_terminates_minimize; [exact Hwf| |exact Hfuel].
+  split; reflexivity.
+Qed.
+
+Print Assumptions minimize_one_minimal.
+Print Assumptions chunk_size_one_rerun_noop.
